@@ -566,7 +566,7 @@ int main(int argc, char** argv) {
 	A = vf::parse_args(argc, argv);
 	Stats top;
 	const bool thorough = A.thorough();
-	g_maxlen = (int) A.geti("maxlen", thorough ? 6 : 5);
+	g_maxlen = (int) A.geti("maxlen", thorough ? 6 : 4);
 	g_kindlen = (int) A.geti("kindlen", thorough ? 4 : 3);
 	if (g_kindlen > g_maxlen) g_kindlen = g_maxlen;
 	const uint64_t chunk = (uint64_t) A.geti("chunk", 500);
